@@ -1,6 +1,7 @@
 //! C34 — F4 reference cycling (base/src/expressions/lexer/util.rs through `Model::cycle_reference`).
-//!  * `c34-step`   : one press: the real `Model::cycle_reference` vs the model driver, which is given
-//!                   the real lexer's Reference/Range spans (`get_tokens_with_locale`); requests are
+//!  * `c34-step`   : one press: the real `Model::cycle_reference` (and the real lexer's Reference/Range
+//!                   spans, `get_tokens_with_locale`) vs the model driver, which lexes the formula with
+//!                   the Lean lexer model and cycles the touched tokens; requests are
 //!                   generated as chains of four presses (the input of press k+1 is the real output
 //!                   of press k), so every request replays alone;
 //!  * `c34-period` : four presses on the implementation only, with the property oracle: only `$` and
@@ -152,8 +153,7 @@ fn gen_step(ctx: &Ctx, sink: &mut dyn FnMut(String)) {
         for (s, e) in cs {
             let (mut text, mut s, mut e) = (f.clone(), s, e);
             for _ in 0..4 {
-                let sp = ref_spans(&text);
-                sink(format!("c34 cyc {} {s} {e} {}", hex(&text), spans_arg(&sp)));
+                sink(format!("c34 lexcyc {} {s} {e}", hex(&text)));
                 match press(&text, s, e) {
                     Ok((t, a, b)) if a >= 0 && b >= 0 => {
                         text = t;
@@ -171,18 +171,13 @@ fn eval_step(req: &str) -> ImplOut {
     let f: Vec<&str> = req.split(' ').collect();
     let value = unhex(f[2]).unwrap();
     let (s, e): (usize, usize) = (f[3].parse().unwrap(), f[4].parse().unwrap());
-    // the spans in the request must be the real lexer's (they are an input of the model)
+    // the answer carries the real lexer's Reference/Range spans: the model computes them with its
+    // own character-level lexer (Formula/Lex.lean), so a lexer change shows up as a disagreement
     let sp = spans_arg(&ref_spans(&value));
-    if sp != f[5] {
-        return ImplOut::new(format!("spans-differ {sp}")).fail(
-            "c34:step:lexer-spans-changed",
-            &format!("request carries spans {} but the lexer now yields {sp} for {value:?}", f[5]),
-        );
-    }
     match press(&value, s, e) {
         Ok((t, a, b)) => {
             let changed = t != value;
-            let out = ImplOut::new(format!("{} {a} {b}", hex(&t))).tag(if changed { "step:cycled" } else { "step:unchanged" });
+            let out = ImplOut::new(format!("{} {a} {b} | {sp}", hex(&t))).tag(if changed { "step:cycled" } else { "step:unchanged" });
             if changed {
                 out
             } else {
@@ -190,7 +185,7 @@ fn eval_step(req: &str) -> ImplOut {
             }
         }
         Err(m) if m == "panic" => ImplOut::new("panic".into()).fail("c34:step:panic", &format!("{value:?} {s} {e}")),
-        Err(_) => ImplOut::new("err".into()).tag("step:err").trivial(),
+        Err(_) => ImplOut::new(format!("err | {sp}")).tag("step:err").trivial(),
     }
 }
 
@@ -354,7 +349,7 @@ pub fn suites() -> Vec<Suite> {
     vec![
         Suite {
             name: "c34-step",
-            rule: "34 fixed + generated formulas (22 contexts × 14 cell shapes, 16 range shapes incl. row-only/column-only/reversed, 7 quoted/unquoted sheet prefixes) × every collapsed cursor and every selection (all for len ≤ 14, 1/6 sample beyond; reversed and out-of-bounds too), chains of four presses: Model::cycle_reference vs the model given the real lexer's spans; non-trivial = the text changed",
+            rule: "34 fixed + generated formulas (22 contexts × 14 cell shapes, 16 range shapes incl. row-only/column-only/reversed, 7 quoted/unquoted sheet prefixes) × every collapsed cursor and every selection (all for len ≤ 14, 1/6 sample beyond; reversed and out-of-bounds too), chains of four presses: Model::cycle_reference and the real lexer's Reference/Range spans vs the model, which finds the spans with its own character-level lexer (Formula/Lex.lean); non-trivial = the text changed",
             modelled: true,
             gen: gen_step,
             eval: eval_step,
